@@ -63,7 +63,10 @@ RULE = ('sequential cases (fake courier inline, virtual clock): 3-14 ops drawn f
         '(normal end, return value, failure) iterated past their end, chains of 1-3 attr/item/call links on handles '
         '(incl. missing attributes, bad indices, non-callables), transport fates ok/deadline/deadline_after/app_error/'
         'die and a dead worker on ~10% of the ops, a shutdown request at a random position in ~30% of the cases; '
-        'concurrent cases (fake courier threaded): 1-3 client threads with thread-disjoint programs.  '
+        'concurrent cases (fake courier threaded): 1-3 client threads with thread-disjoint programs (pure callables, own '
+        'handles / iterators), and 2-3 threads consuming ONE remote tuple iterator or remote queue (oracle only: each '
+        'element exactly once, order per consumer, StopIteration for every call beyond the end).  Coverage is gated on the '
+        'reference (local) pass.  '
         'non-trivial = at least two evaluated ops of which one returns a remote handle, propagates an exception or '
         'passes the end of an iterator; distinct = distinct canonical case JSON')
 
@@ -1149,7 +1152,7 @@ def _failures(case, obs):
         continue
       if kind == 'chain' and not shut:
         py = l['py']
-        if ('ok' in py) != ('ok' in r) or ('ok' in py and _top(py['ok']) != _top(r['ok'])) or \
+        if ('ok' in py) != ('ok' in r) or ('ok' in py and _top(py['ok']) != r['ok']) or \
             ('err' in py and py['err']['kind'] != r['err']['kind']):
           yield (f'{where}: the chain on the local object gives {jdump(py)[:160]}, '
                   f'on the remote handle {jdump({k: v for k, v in r.items() if k != "calls"})[:160]}')
@@ -1162,7 +1165,7 @@ def _failures(case, obs):
             continue
           yield f'{where}: local evaluation returns {jdump(l["ok"])[:120]}, the client raised {r["err"]}'
           continue
-        if _top(r['ok']) != _top(l['ok']):
+        if r['ok'] != _top(l['ok']):
           yield f'{where}: client got {jdump(r["ok"])[:160]}, local evaluation gives {jdump(l["ok"])[:160]}'
           continue
       else:
